@@ -20,14 +20,8 @@ multiplication itself is `mul_reconstruct`). -/
 theorem prf_masked_product {K : Type} [Field K] (x1 x2 x3 k1 k2 k3 r : K) :
     ((x1 + k1) + (x2 + k2) + (x3 + k3)) * r = r * ((x1 + x2 + x3) + (k1 + k2 + k3)) := by ring
 
-/-- **conv_value** (arithmetic core of `convert_to_fp25519`) — with the two top bits of the masks cleared
-(`r, s < 2^254`) and an input of at most 127 bits, `y = x + r + s` does not wrap modulo `2^256`, and the three
-output shares `(−s, y, −r)` sum to `x` in any ring the integers map into (`Fp25519 = ZMod ℓ`). -/
-theorem conv_value_partial (x r s : Nat) (hx : x < 2 ^ 127) (hr : r < 2 ^ 254) (hs : s < 2 ^ 254) :
-    r + s < 2 ^ 255 ∧ (x + (r + s)) % 2 ^ 256 = x + r + s := by
-  refine ⟨by omega, ?_⟩
-  rw [Nat.mod_eq_of_lt (by omega)]; omega
-
+/-- `convert_to_fp25519`: the full statement is `conv_value` in `IpaVerif.Props.C07Conv`; this is its ring-level core:
+the output shares `(−s, y, −r)` sum to `x` in any ring the integers map into (`Fp25519 = ZMod ℓ`). -/
 theorem conv_shares_sum {R : Type} [CommRing R] (x r s : Nat) :
     (-(s : R)) + ((x + r + s : Nat) : R) + (-(r : R)) = (x : R) := by
   push_cast; ring
